@@ -939,7 +939,7 @@ func c17r14(c *Ctx, r *Report) {
 func c07r7(c *Ctx, r *Report) {
 	l := c.L
 	r.rule("C07-R7", "A (must-pass-through: join before return)", "P1",
-		"in runProxy, for the goroutine that relays the popup's output (its closure calls withOutputPipe), every path from the call of cmd.Run to the return of ExitOk passes a join on that goroutine: a receive from a channel bound to the closure, or Wait on a WaitGroup bound to it",
+		"in runProxy, for the goroutine that relays the popup's output (its closure calls withOutputPipe), every path from the call of cmd.Run to the return of ExitOk passes a join on that goroutine: a receive from a channel bound to the closure, or Wait on a WaitGroup bound to it; and the join is reached only where cmd.Run returned nil",
 		"under --tmux the tail of the output (the last selected records) is lost and the last printed record may be cut in the middle, with exit status 0")
 	rp := l.Fn("fzf", "runProxy")
 	wop := l.Fn("fzf", "withOutputPipe")
@@ -1014,6 +1014,32 @@ func c07r7(c *Ctx, r *Report) {
 		}
 	})
 	r.floor("returns of ExitOk in runProxy", nOK, 1)
+	// ... and the join itself is reached only after a command that ran: if cmd.Run returned an error (the
+	// command could not be started, or failed before opening the pipe) nobody will ever open the FIFO and the
+	// relay never finishes — waiting for it would hang (D42: that is what the first version of the D29 repair
+	// did when tmux was missing from PATH)
+	pcR := pathConds(rp)
+	var runErr ssa.Value
+	if rv, ok := run.(ssa.Value); ok {
+		runErr = rv
+	}
+	eachInstr(rp, func(in ssa.Instruction) {
+		if !isJoin(in) || runErr == nil {
+			return
+		}
+		holds, reach := pcR.Implies(in.Block(), func(lits []Lit) bool {
+			return hasLit(lits, func(a ssa.Value, v bool) bool {
+				b, ok := a.(*ssa.BinOp)
+				if !ok || b.X != runErr {
+					return false
+				}
+				k, isK := b.Y.(*ssa.Const)
+				return isK && k.IsNil() && (b.Op == token.NEQ && !v || b.Op == token.EQL && v)
+			})
+		})
+		r.check(holds && reach, fmt.Sprintf("%s:the relay is awaited only after a command that ran", relName(rp)), in.Pos(), rp,
+			"the join is reached only where cmd.Run returned nil", "the join can be reached after cmd.Run failed: the pipe is never opened and fzf hangs")
+	})
 	esc := pathAvoiding(run, isRet, isJoin, nil)
 	where := ""
 	if esc != nil {
@@ -5019,4 +5045,102 @@ func c01r9(c *Ctx, r *Report) {
 			"terms are string([]rune); the separator is invalid UTF-8, or is replaced in every term by a string that is", fmt.Sprintf("a term can contain the separator %q: two different term lists can have the same key", sep))
 	})
 	r.floor("joins in buildCacheKey", n, 1)
+}
+
+// c08r19: Matcher.Loop may answer a request from the merger cache only when the snapshot has as many items as
+// the snapshot the cached mergers were built over; it remembers that number in a loop-carried variable. The
+// variable must describe the PREVIOUS iteration's snapshot whatever that iteration did — also when it dropped
+// the caches because the revision changed (D41: on that path the variable kept the count from before the
+// reload; a later snapshot of the new input that happened to have that old count was answered with the merger
+// of a smaller snapshot: 300 items loaded, 100 shown, until the count changed again).
+func c08r19(c *Ctx, r *Report) {
+	l := c.L
+	r.rule("C08-R19", "D (value carried around the loop)", "P1",
+		"in Matcher.Loop, the loop-carried variable that is compared with CountItems(request.chunks) receives, on every path to the next iteration, that call's result — or keeps its old value only on a path that has established old == count",
+		"after a reload (or change-nth / exclude) the list of an earlier, smaller snapshot is served for a later snapshot that happens to have the item count seen before the reload")
+	mloop := l.Fn("fzf", "(*Matcher).Loop")
+	countItems := l.Fn("fzf", "CountItems")
+	if mloop == nil || countItems == nil {
+		r.unest("anchors", token.NoPos, nil, "anchors Matcher.Loop / CountItems", "cannot resolve")
+		return
+	}
+	var count *ssa.Call
+	eachInstr(mloop, func(in ssa.Instruction) {
+		if call, ok := in.(*ssa.Call); ok && callIs(call.Common(), countItems) {
+			count = call
+		}
+	})
+	if count == nil {
+		r.unest("anchors", token.NoPos, mloop, "the call of CountItems in Matcher.Loop", "cannot find it")
+		return
+	}
+	// the loop-carried variable: a header phi compared with count
+	var prev *ssa.Phi
+	eachInstr(mloop, func(in ssa.Instruction) {
+		b, ok := in.(*ssa.BinOp)
+		if !ok || (b.Op != token.EQL && b.Op != token.NEQ) {
+			return
+		}
+		for _, pr := range [][2]ssa.Value{{b.X, b.Y}, {b.Y, b.X}} {
+			if pr[0] == ssa.Value(count) {
+				if p, ok := pr[1].(*ssa.Phi); ok {
+					prev = p
+				}
+			}
+		}
+	})
+	if prev == nil {
+		r.unest("anchors", token.NoPos, mloop, "the loop-carried count that CountItems' result is compared with", "cannot find it")
+		return
+	}
+	pc := pathConds(mloop)
+	n := 0
+	seen := map[*ssa.Phi]bool{}
+	var walk func(v ssa.Value, from *ssa.BasicBlock, to *ssa.BasicBlock)
+	walk = func(v ssa.Value, from, to *ssa.BasicBlock) {
+		if v == ssa.Value(count) {
+			n++
+			r.ok(fmt.Sprintf("%s:carried count, path #%d", relName(mloop), n), count.Pos(), mloop, "the new count is carried")
+			return
+		}
+		if phi, ok := v.(*ssa.Phi); ok && phi != prev {
+			if seen[phi] {
+				return
+			}
+			seen[phi] = true
+			for i, e := range phi.Edges {
+				walk(e, phi.Block().Preds[i], phi.Block())
+			}
+			return
+		}
+		n++
+		good := false
+		if v == ssa.Value(prev) && from != nil {
+			eq := func(lits []Lit) bool {
+				return hasLit(lits, func(a ssa.Value, val bool) bool {
+					b, ok := a.(*ssa.BinOp)
+					if !ok {
+						return false
+					}
+					same := b.X == ssa.Value(count) && b.Y == ssa.Value(prev) || b.Y == ssa.Value(count) && b.X == ssa.Value(prev)
+					return same && (b.Op == token.EQL && val || b.Op == token.NEQ && !val)
+				})
+			}
+			h1, r1 := pc.ImpliesEdge(from, to, eq)
+			h2, r2 := pc.Implies(from, eq)
+			good = h1 && r1 || h2 && r2
+		}
+		pos := mloop.Pos()
+		if from != nil && len(from.Instrs) > 0 {
+			pos = from.Instrs[len(from.Instrs)-1].Pos()
+		}
+		r.check(good, fmt.Sprintf("%s:carried count, path #%d", relName(mloop), n), pos, mloop, "the old value is kept only where it equals the new count", "a path to the next iteration keeps the count of an older snapshot although this iteration scanned a snapshot of another size")
+	}
+	for i, e := range prev.Edges {
+		p := prev.Block().Preds[i]
+		if prev.Block().Dominates(p) { // back edge
+			walk(e, p, prev.Block())
+		}
+	}
+	r.floor("values carried into the next iteration's count", n, 2)
 }
